@@ -286,7 +286,50 @@ Theorem oracle_persisted_sound : forall nc s c s' inside ex s1 stack,
   persisted_ok (targets (c_redirs c)) (k_tab s) (k_tab s') = true.
 Proof. exact ProofsSpec.oracle_persisted_sound. Qed.
 
+(* -- the saving step as a failure point ---------------------------------------- *)
+
+(* redir.rs perform: dup(target, MIN_INTERNAL_FD, CLOEXEC) fails although the
+   target is open (no descriptor can be allocated: the limit, or an injected
+   failure): the redirection is refused - it is NOT applied without a backup -
+   and neither the table nor the files have changed *)
+Theorem save_failure_refuses : forall nc s r en s1 e, lookup (k_tab s) (r_fd r) = Some en -> e_cx en = false -> alloc_fd s MIN_INTERNAL_FD (mkEnt (e_ofd en) true) = (s1, Err e) -> perform nc s r = (s1, None) /\ k_tab s1 = k_tab s /\ k_fs s1 = k_fs s.
+Proof. exact ProofsSave.save_failure_refuses_lemma. Qed.
+
+(* `ulimit -n 10; echo x >file; echo still-here`: the first target is open and
+   there is no slot at 10 or above for its backup: a command that does not end
+   the shell does not run, the shell goes on, the table is the one before *)
+Theorem command_refused_when_no_backup_slot : forall nc s c r rs en s' inside ex, c_redirs c = r :: rs -> lookup (k_tab s) (r_fd r) = Some en -> e_cx en = false -> k_flt s = [] -> in_limit (k_lim s) (min_unused MIN_INTERNAL_FD (k_tab s)) = false -> match c_kind c with KRegular | KFunction | KGroup | KSubshell | KNotFound => True | _ => False end -> run_cmd nc s c = (s', inside, ex) -> inside = None /\ ex = false /\ k_tab s' = k_tab s /\ k_lim s' = k_lim s.
+Proof. exact ProofsSave.command_refused_lemma. Qed.
+
+(* a successful perform records no backup exactly when the target was closed;
+   otherwise the backup is a fresh descriptor at 10 or above, close-on-exec, on
+   the description the target had *)
+Theorem backup_iff_target_open : forall nc s r s' n save, sorted (k_tab s) -> below_limit (k_lim s) (k_tab s) -> perform nc s r = (s', Some (n, save)) -> n = r_fd r /\ match save with | None => lookup (k_tab s) n = None | Some sv => exists en, lookup (k_tab s) n = Some en /\ e_cx en = false /\ lookup (k_tab s) sv = None /\ (10 <= sv)%N /\ sv <> n /\ lookup (k_tab s') sv = Some (mkEnt (e_ofd en) true) end.
+Proof. exact ProofsSave.backup_iff_open_lemma. Qed.
+
+(* so the closing branch of undo_redirs only closes what was closed before *)
+Theorem undo_closes_only_closed : forall nc s r s' n, sorted (k_tab s) -> below_limit (k_lim s) (k_tab s) -> perform nc s r = (s', Some (n, None)) -> lookup (k_tab s) n = None /\ lookup (undo_one (k_lim s') (k_tab s') (n, None)) n = lookup (k_tab s) n.
+Proof. exact ProofsSave.undo_closes_only_closed_lemma. Qed.
+
+(* after a list of redirections has been performed, every target that was open
+   before has a backup among the shell's own descriptors, on the description it
+   had before the first redirection *)
+Theorem backups_while_running : forall nc s rs s' stack fd e, sorted (k_tab s) -> below_limit (k_lim s) (k_tab s) -> perform_redirs nc s rs [] = (s', stack, true) -> In fd (targets rs) -> lookup (k_tab s) fd = Some e -> exists sv esv, lookup (k_tab s') sv = Some esv /\ (10 <= sv)%N /\ e_cx esv = true /\ e_ofd esv = e_ofd e.
+Proof. exact ProofsSave.backups_while_running_lemma. Qed.
+
+(* soundness of oracle clause B (verdict 12) *)
+Theorem oracle_backup_sound : forall nc s c s' si ex, sorted (k_tab s) -> below_limit (k_lim s) (k_tab s) -> c_kind c <> KAsync -> run_cmd nc s c = (s', Some si, ex) -> backup_ok (targets (c_redirs c)) (k_tab s) (k_tab si) = true.
+Proof. exact ProofsSave.oracle_backup_sound_lemma. Qed.
+
+(* the variant of perform that takes every failure of the saving dup as "the
+   target is not open" (ProofsSave.perform_lenient) loses a descriptor of the
+   user's: with descriptors 0 1 2 open and the limit at 10, `>file` succeeds
+   there, and the undo leaves descriptor 1 closed; perform refuses *)
+Theorem lenient_save_variant_refuted : exists nc s r s' sv, sorted (k_tab s) /\ below_limit (k_lim s) (k_tab s) /\ k_flt s = [] /\ ProofsSave.perform_lenient nc s r = (s', Some sv) /\ lookup (k_tab s) 1%N <> None /\ lookup (k_tab (undo_redirs s' [sv])) 1%N = None /\ perform nc s r = (s, None).
+Proof. exact ProofsSave.lenient_save_refuted_lemma. Qed.
+
 (* non-vacuity of the hypotheses: see Examples.v (hypotheses_satisfiable, ...) *)
+(* ... and ProofsSave.command_refused_example *)
 
 (* TIE BY TRANSLATION: the lowest descriptor the shell keeps for itself is the
    constant the source declares now (translator/consts.py reads MIN_INTERNAL_FD
@@ -324,4 +367,11 @@ Print Assumptions preserve_keeps_view.
 Print Assumptions oracle_restored_sound.
 Print Assumptions oracle_internal_sound.
 Print Assumptions oracle_persisted_sound.
+Print Assumptions save_failure_refuses.
+Print Assumptions command_refused_when_no_backup_slot.
+Print Assumptions backup_iff_target_open.
+Print Assumptions undo_closes_only_closed.
+Print Assumptions backups_while_running.
+Print Assumptions oracle_backup_sound.
+Print Assumptions lenient_save_variant_refuted.
 Print Assumptions min_internal_fd_is_source.
